@@ -1269,6 +1269,10 @@ func (t *tr) stmts(list []ast.Stmt, en env, k cont) string {
 			var conds []string
 			for _, ce := range cc.List {
 				v := t.expr(ce, en)
+				if v.T == "String" && v.L == leanStr("") && strings.HasPrefix(tag.T, "Option ") {
+					conds = append(conds, "("+tag.L+").isNone") // `case ""` on an optional request string
+					continue
+				}
 				if v.T != tag.T {
 					if tag.T == "Option "+v.T {
 						v = V{"(some " + v.L + ")", tag.T}
